@@ -1878,12 +1878,11 @@ class Node:
         """
         message_id = (message.header.hop_by_hop_identifier,
                       message.header.end_to_end_identifier)
-        if (not message.header.is_request and
-                conn.ident in self._peer_waiting_answer and
-                message_id in self._peer_waiting_answer[conn.ident]):
+        if not message.header.is_request:
             # cleanup in case someone is sending messages directly without
-            # using _route_answer
-            del self._peer_waiting_answer[conn.ident][message_id]
+            # using _route_answer; the connection's table may be removed by
+            # the node's thread at any moment
+            self._peer_waiting_answer.get(conn.ident, {}).pop(message_id, None)
         conn.add_out_msg(message)
         if not message.header.is_request:
             self._record_answer(conn, message)
